@@ -294,8 +294,20 @@ func (s *Server) readMessage() (json.RawMessage, error) {
 
 		// Parse Content-Length header
 		// header field names are case-insensitive
-		if len(line) >= len("Content-Length:") && strings.EqualFold(line[:len("Content-Length:")], "Content-Length:") {
-			value := strings.TrimSpace(line[len("Content-Length:"):])
+		// After a message whose header could not be used its body is still
+		// in the stream, glued in front of the next header (bodies do not end
+		// in a line break): the header is recognised wherever it starts in
+		// the line, so that the session finds its way back into step.
+		at := -1
+		for i := len(line) - len("Content-Length:"); i >= 0; i-- {
+			// header field names are case-insensitive
+			if strings.EqualFold(line[i:i+len("Content-Length:")], "Content-Length:") {
+				at = i
+				break
+			}
+		}
+		if at >= 0 {
+			value := strings.TrimSpace(line[at+len("Content-Length:"):])
 			contentLength, err = strconv.Atoi(value)
 			if err != nil {
 				return nil, fmt.Errorf("invalid Content-Length: %v", err)
